@@ -20,9 +20,16 @@ def check(rep, tier, seed):
         repeated = (not vi) and rnd.random() < 0.2
         if repeated:      # the same text killed more than once, with other kills in between
             start, hist = E.type_text(rnd.choice(["foo bar foo ", "ab ab ab ", "x y x y ", "one two one two one "])), None
+        ringfull = (not vi) and (not repeated) and rnd.random() < 0.06
+        if ringfull:      # more kills than the ring has slots (10): the newest kill is still what yank gives back
+            start, hist = E.type_text(" ".join("w%02d" % j for j in range(1, 15)) + " "), None
         cmds = list(start)
         modelled = True
-        if vi:
+        if ringfull:
+            kills = [[("backward-kill-word",), ("beginning-of-line",), ("end-of-line",)] for _ in range(rnd.choice([10, 11, 12, 13]))]
+            kills[-1] = [("backward-kill-word",)]
+            yank = ("yank",)
+        elif vi:
             cmds.append(("vi-movement-mode",))
             cmds += E.moves(rnd, True, rnd.randrange(0, 4))
             kills = []
